@@ -39,6 +39,7 @@ func extraMonitors(s *Sim) []Monitor {
 		newMonC05(s),
 		newMonC07(s),
 		newMonC13(s),
+		newMonC10(s),
 	}
 }
 
